@@ -79,3 +79,76 @@ impl<'a> LimitedDataRead<'a, HttpResponse> {
             r is Ok ==> final(buf)@.len() - old(buf)@.len() == old(self).source().body_spec().len(),
     { unimplemented!() }
 }
+
+// ---- further API of the environment types used in collector/rrdp/base.rs (declared so that a
+// change of load_ta to one of them is verified rather than rejected)
+#[derive(Clone, Copy)]
+pub struct StatusCode(pub u16);
+impl StatusCode {
+    pub const OK: StatusCode = StatusCode(200);
+    #[verifier::external_body] pub fn is_success(&self) -> (r: bool) ensures r == (200 <= self.0 < 300) { unimplemented!() }
+}
+impl HttpResponse {
+    pub uninterp spec fn status_spec(&self) -> StatusCode;
+    #[verifier::external_body] pub fn status(&self) -> (r: StatusCode) ensures r == self.status_spec() { unimplemented!() }
+    #[verifier::external_body] pub fn etag(&self) -> Option<Bytes> { unimplemented!() }
+}
+impl Bytes {
+    #[verifier::external_body] pub fn len(&self) -> (r: usize) ensures r == self.content().len() { unimplemented!() }
+    #[verifier::external_body] pub fn is_empty(&self) -> (r: bool) ensures r == (self.content().len() == 0) { unimplemented!() }
+    #[verifier::external_body] pub fn copy_from_slice(data: &[u8]) -> (r: Bytes) ensures r.content() == data@ { unimplemented!() }
+}
+#[verifier::external_body] pub struct LimitedDataReadError { _opaque: () }
+impl<'a> LimitedDataRead<'a, HttpResponse> {
+    // read_to_end into a fresh vector; an error (size refusal or transport) yields Err
+    #[verifier::external_body]
+    pub fn read_all(self) -> (r: Result<Vec<u8>, LimitedDataReadError>)
+        ensures
+            r is Ok <==> (!self.io_fails() && (self.limit() matches Some(l) ==> self.source().body_spec().len() <= l)),
+            r matches Ok(v) ==> v@ == self.source().body_spec(),
+    { unimplemented!() }
+}
+
+// ---- std functions without a vstd specification (ASSUMED; their std definitions). Declared so
+// that a change of the code to one of these combinators is verified instead of rejected.
+pub assume_specification<T: Ord + core::marker::Destruct> [std::cmp::max] (a: T, b: T) -> (r: T)
+    ensures <T as vstd::std_specs::cmp::OrdSpec>::obeys_cmp_spec() ==> r == (if vstd::std_specs::cmp::OrdSpec::cmp_spec(&a, &b) == std::cmp::Ordering::Greater { a } else { b });
+pub assume_specification<T: Ord + core::marker::Destruct> [std::cmp::min] (a: T, b: T) -> (r: T)
+    ensures <T as vstd::std_specs::cmp::OrdSpec>::obeys_cmp_spec() ==> r == (if vstd::std_specs::cmp::OrdSpec::cmp_spec(&a, &b) == std::cmp::Ordering::Greater { b } else { a });
+pub assume_specification<T> [bool::then_some] (b: bool, t: T) -> (r: Option<T>)
+    ensures r == (if b { Some(t) } else { None::<T> });
+pub assume_specification<T, U> [Option::<T>::and] (a: Option<T>, b: Option<U>) -> (r: Option<U>)
+    ensures r == (if a is Some { b } else { None::<U> });
+pub assume_specification<T> [Option::<T>::or] (a: Option<T>, b: Option<T>) -> (r: Option<T>)
+    ensures r == (if a is Some { a } else { b });
+pub assume_specification<T> [Option::<T>::xor] (a: Option<T>, b: Option<T>) -> (r: Option<T>)
+    ensures r == (if a is Some && b is None { a } else if a is None && b is Some { b } else { None::<T> });
+pub assume_specification<T, U> [Option::<T>::zip] (a: Option<T>, b: Option<U>) -> (r: Option<(T, U)>)
+    ensures r == (if a is Some && b is Some { Some((a->Some_0, b->Some_0)) } else { None::<(T, U)> });
+pub assume_specification<T> [Option::<T>::replace] (a: &mut Option<T>, v: T) -> (r: Option<T>)
+    ensures r == *old(a), *final(a) == Some(v);
+pub assume_specification<T, F: FnOnce(T) -> bool> [Option::<T>::is_some_and] (a: Option<T>, f: F) -> (r: bool)
+    requires a is Some ==> f.requires((a->Some_0,)),
+    ensures a is None ==> !r, a is Some ==> f.ensures((a->Some_0,), r);
+pub assume_specification<T, U, F: FnOnce(T) -> U> [Option::<T>::map_or] (a: Option<T>, default: U, f: F) -> (r: U)
+    requires a is Some ==> f.requires((a->Some_0,)),
+    ensures a is None ==> r == default, a is Some ==> f.ensures((a->Some_0,), r);
+pub assume_specification<T, P: FnOnce(&T) -> bool> [Option::<T>::filter] (a: Option<T>, p: P) -> (r: Option<T>)
+    requires a is Some ==> p.requires((&a->Some_0,)),
+    ensures a is None ==> r is None, r is Some ==> r == a,
+            a is Some ==> (p.ensures((&a->Some_0,), true) ==> r == a) && (p.ensures((&a->Some_0,), false) ==> r is None);
+pub assume_specification<T, E, U, F: FnOnce(T) -> Result<U, E>> [Result::<T, E>::and_then] (a: Result<T, E>, f: F) -> (r: Result<U, E>)
+    requires a is Ok ==> f.requires((a->Ok_0,)),
+    ensures a is Err ==> r == Err::<U, E>(a->Err_0), a is Ok ==> f.ensures((a->Ok_0,), r);
+pub assume_specification<T, E, U> [Result::<T, E>::and] (a: Result<T, E>, b: Result<U, E>) -> (r: Result<U, E>)
+    ensures r == (if a is Ok { b } else { Err::<U, E>(a->Err_0) });
+pub assume_specification<T, E, F> [Result::<T, E>::or] (a: Result<T, E>, b: Result<T, F>) -> (r: Result<T, F>)
+    ensures r == (if a is Ok { Ok::<T, F>(a->Ok_0) } else { b });
+pub assume_specification<T, E, F: FnOnce(T) -> bool> [Result::<T, E>::is_ok_and] (a: Result<T, E>, f: F) -> (r: bool)
+    requires a is Ok ==> f.requires((a->Ok_0,)),
+    ensures a is Err ==> !r, a is Ok ==> f.ensures((a->Ok_0,), r);
+pub assume_specification<T, E> [Result::<T, E>::unwrap_or] (a: Result<T, E>, default: T) -> (r: T)
+    ensures r == (if a is Ok { a->Ok_0 } else { default });
+pub assume_specification<T, E, F: FnOnce(E) -> T> [Result::<T, E>::unwrap_or_else] (a: Result<T, E>, f: F) -> (r: T)
+    requires a is Err ==> f.requires((a->Err_0,)),
+    ensures a is Ok ==> r == a->Ok_0, a is Err ==> f.ensures((a->Err_0,), r);
